@@ -29,8 +29,8 @@ from vlib.common import Violation, HarnessError
 ID = "C18"
 MANIFEST = {
     "technique": "property-based testing of histories (Hypothesis): generated layouts wrapped in VirtualArray at random nodes x generator behaviours x cache behaviours x operation sequences against the eager twin; generated partitionings x positional operations / repartitionings against the concatenated value; the same at the Python level (ak.virtual, ak.partitioned, ak.repartition) on the awkward._ext emulation",
-    "level_text": "Generated-input exploration at the C++ level (libawkward through the /verif bridge) and at the Python level (unmodified src/awkward on the awkward._ext emulation). Virtual part: a type-directed generator draws a layout; 1..3 nodes (root, inner, nested) are wrapped in VirtualArray whose ArrayGenerator/ArrayCache call back into Python; generator behaviours correct / raises on drawn calls / shorter or longer than the declared length / other than the declared form; cache behaviours none / keep / never stores / evicts on a drawn schedule / weak reference lost; 1..8 (thorough: 1..16) catalogue operations (also on lazy results of earlier steps) must give the eager twin's value and success/error class; with length and form declared len/type/form/range/field slicing must not invoke the generator; a declaration mismatch must raise whenever the generator ran and a rejected array must never be readable afterwards; after a failed or evicted generation the next read must be right; cache entries must hold the true value of their own key. Partition part: every split of a value into 1..4 partitions (empty ones included) with independent encodings; getitem_at, getitem_range (any step), tojson, len, partitionid_index_at, start/stop/stops and repartition (incl. trailing empty partitions) must agree with the concatenated value. Python level: ak.virtual(generate, form, length, cache, cache_key) at the root or as a field of a RecordArray x the same generator behaviours x cache 'new' / None / a mapping that never keeps / evicts on a drawn schedule, and ak.partitioned([...]) of 1..4 pieces, under len, ak.type, to_list, a[i], a[slice], a[int array], a[mask], a[field], ak.num, ak.flatten, ak.sum, a+1, ak.is_none, ak.materialized, ak.to_json, ak.fields, ak.partitions, ak.repartition(int / list / None), compared with the eager concatenated ak.Array under the same call. Held on everything generated outside the recorded known finding.",
-    "level_note": "Trusted: the /verif bridge, akshim.virtual and the rest of the awkward._ext emulation (a re-statement of PyArrayGenerator/PyArrayCache and of the pybind11 binding, which cannot be compiled here: src/python/virtual.cpp and partition.cpp themselves are not executed), akmodel.decode as the reader of results. Not decided: thread interleavings (every history is a single-threaded schedule owned by the harness: concurrent generation/eviction is out of reach), ptr_lib='cuda', a cache whose weak reference dies at the Python level (ak.Array keeps its caches alive; exercised at the C++ level only). At the Python level operations that reduce or restructure below the top level are compared on canonically encoded pieces only, reducers at axis=None only, and the order in which ak.flatten(axis=None) lists record fields is not compared (unspecified); steps that need the ArrayBuilder emulation are skipped and counted.",
+    "level_text": "Generated-input exploration at the C++ level (libawkward through the /verif bridge) and at the Python level (unmodified src/awkward on the awkward._ext emulation). Virtual part: a type-directed generator draws a layout; 1..3 nodes (root, inner, nested) are wrapped in VirtualArray whose ArrayGenerator/ArrayCache call back into Python; generator behaviours correct / raises on drawn calls / shorter or longer than the declared length / other than the declared form; cache behaviours none / keep / never stores / evicts on a drawn schedule / weak reference lost; 1..8 (thorough: 1..16) catalogue operations (also on lazy results of earlier steps) must give the eager twin's value and success/error class; with length and form declared len/type/form/range/field slicing must not invoke the generator; a declaration mismatch must raise whenever the generator ran and a rejected array must never be readable afterwards; after a failed or evicted generation the next read must be right; cache entries must hold the true value of their own key. Partition part: every split of a value into 1..4 partitions (empty ones included) with independent encodings; getitem_at, getitem_range (any step), tojson, len, partitionid_index_at, start/stop/stops and repartition (incl. trailing empty partitions) must agree with the concatenated value. Python level: ak.virtual(generate, form, length, cache, cache_key) at the root or as a field of a RecordArray x the same generator behaviours x cache 'new' / None / a mapping that never keeps / evicts on a drawn schedule, and ak.partitioned([...]) of 1..4 pieces, under len, ak.type, to_list, a[i], a[slice], a[int array], a[mask], a[field], ak.num, ak.flatten, ak.sum, a+1, ak.is_none, ak.materialized, ak.to_json, ak.fields, ak.partitions, ak.repartition(int / list / None), compared with the eager concatenated ak.Array under the same call. Held on everything generated outside the four recorded known findings (a generated array longer than declared is accepted; the form predicted for a lazy range slice ignores that a BitMaskedArray below a regular/record/masked node becomes a ByteMaskedArray; nested VirtualArrays predict slice forms as if their nodes were concrete; a[..., newaxis] through a VirtualArray over a RecordArray puts the new axis inside the fields).",
+    "level_note": "Trusted: the /verif bridge, akshim.virtual and the rest of the awkward._ext emulation (a re-statement of PyArrayGenerator/PyArrayCache and of the pybind11 binding, which cannot be compiled here: src/python/virtual.cpp and partition.cpp themselves are not executed), akmodel.decode as the reader of results. Not decided: thread interleavings (every history is a single-threaded schedule owned by the harness: concurrent generation/eviction is out of reach), ptr_lib='cuda', a cache whose weak reference dies at the Python level (ak.Array keeps its caches alive; exercised at the C++ level only). At the Python level operations that reduce or restructure below the top level are compared on canonically encoded pieces only, reducers at axis=None only, and the order in which ak.flatten(axis=None) lists record fields is not compared (unspecified); steps that need the ArrayBuilder emulation are skipped and counted; type strings of partitioned arrays are not compared (merging pieces turns regular dimensions into var and leaves unions unsimplified: a matter of merge, not of the value). SliceGenerator is exercised through the lazy results libawkward builds itself, not constructed directly with contradicting declarations. When the eager array refuses to sort strings at an outer axis the virtual twin is not required to refuse (the refusal is decided by purelist_parameter, which a lazily carried VirtualArray answers without a form).",
 }
 RULE = ("case = whole history. virtual: description + wrappers (path, declared form/length, generator behaviour) + cache behaviour + 1..8 steps; "
         "non-trivial = some wrapper's generator ran at least twice (a re-generation after an eviction, a cache that does not keep, or a failed generation) "
@@ -42,7 +42,9 @@ ASSUMPTIONS = ["generators are pure: every invocation builds the same descriptio
                "steps whose eager twin lies in the region of a known finding of another property (checks/known.py) are skipped and counted",
                "a step's outcome is that of the operation followed by a full read of its result (lazy results defer errors to the read)",
                "the step-level metadata claim (no generator call) is asserted for len, type, .form, getitem_range, getitem_field(s) only (Python level: len, ak.type, a[start:stop], a[field])",
-               "when both twins refuse an operation the exception classes are not compared"]
+               "when both twins refuse an operation the exception classes are not compared",
+               "partitioned arrays may contain lazy (VirtualArray) partitions with correct generators (the shape ak.from_buffers(lazy=True) makes)",
+               "every virtual history ends with a complete read of the root, which must be the eager value whatever was evicted or failed before"]
 PLAN = {
     "quick": [{"flavour": "plain", "cases": 6400}, {"flavour": "san", "cases": 1600}],
     "thorough": [{"flavour": "plain", "cases": 60000}, {"flavour": "san", "cases": 15000}],
@@ -321,7 +323,19 @@ def known_nested_virtual_slice_form(case, vio):
     return '"VirtualArray"' in generated and nested
 
 
+def known_ellipsis_newaxis_through_virtual_record(case, vio):
+    """a[..., np.newaxis] where the ellipsis has to pass a VirtualArray whose array is a RecordArray: VirtualArray::getitem_next hands the
+    slice to RecordArray's generic (SliceItemPtr) overload, which pushes it into every field, where the eager parent calls the typed
+    overload that treats the record as the item: the new axis ends up inside the fields ([[{x: [5]}]] instead of [[[{x: 5}]]])"""
+    if not (case.get("part") == "virtual" and vio.get("bucket", "").startswith(("value:getitem|", "errorclass:getitem|"))):
+        return False      # errorclass: records whose fields differ in depth - the eager array refuses the ellipsis, the per-field route does not
+    both = any(s_["spec"]["op"] == "getitem" and {"ellipsis", "newaxis"} <= set(i["k"] for i in s_["spec"]["items"]) for s_ in case["steps"])
+    record_below_inner_wrapper = any(w["path"] and K.any_node(node_at(case["desc"], w["path"]), lambda n: n["class"] == "RecordArray") for w in case["wraps"])
+    return both and record_below_inner_wrapper
+
+
 KNOWN = {"virtual_generated_longer_than_declared": known_length_longer,
+         "virtual_record_ellipsis_newaxis": known_ellipsis_newaxis_through_virtual_record,
          "virtual_range_form_bitmasked": known_bitmasked_range_form,
          "virtual_slice_form_nested_virtual": known_nested_virtual_slice_form}
 
@@ -339,6 +353,29 @@ def case_label(case):
         return "partition|" + ",".join(sorted(set(o["op"] for o in case["ops"])))
     w = case["wraps"][0]
     return "virtual|%s|%s|%s" % ("root" if not w["path"] else "inner", case["cache"]["kind"], w["gen"]["kind"])
+
+
+def nested_strings(desc):
+    """does the type have a string / bytestring below at least two list levels?"""
+    try:
+        T = M.decode(desc)[0]
+    except M.Invalid:
+        return False
+
+    def walk(t, lists):
+        k = t[0]
+        if k in ("string", "bytes"):
+            return lists >= 2
+        if k in ("list", "regular"):
+            return walk(t[1], lists + 1)
+        if k == "option":
+            return walk(t[1], lists)
+        if k == "record":
+            return any(walk(ft, lists) for _, ft in t[1])
+        if k == "union":
+            return any(walk(x, lists) for x in t[1])
+        return False
+    return walk(T, 0)
 
 
 def eager_known(spec, srcdesc):
@@ -575,6 +612,11 @@ def _run_virtual(case, run):
             except M.Invalid:
                 tags.append("step:eager_source_unevaluable")
                 continue
+        if op in ("reduce", "sort", "argsort") and nested_strings(srcdesc):
+            # the non-local reduce/sort machinery overflows its buffers on the EAGER twin for strings below two list levels (the crash
+            # family of reduce_nonlocal_deep / sort_nonlocal_deep, whose predicates count levels without the string's own): not run
+            tags.append("step_skipped:reduce_sort_on_nested_strings")
+            continue
         excl = (K.pre_exclude(spec, srcdesc) if op in CATALOGUE else None) or eager_known(spec, srcdesc)
         if excl is not None:
             tags.append("step_skipped:" + excl)
